@@ -25,9 +25,6 @@ def canary_trace(reset):
     env = engine.run_program(copy.deepcopy(CANARY), reset=reset)
     tr = engine.trace(env)
     tr["flushes"] = [f for f in tr["flushes"] if f[0] == "canary"]
-    # a batch left pending by an abandoned computation may be flushed while the canary waits (leftover
-    # batches are allowed), which adds pause/resume rounds: context events are not part of the comparison
-    del tr["ctx"]
     tr["steps"] = sum(1 for e in env.log if e[0] == "step")
     tr["active_in_body"] = [m for c, m in env.viol if c.startswith("C08")]
     return tr, env
@@ -74,6 +71,11 @@ def check(case, ctx):
             env = engine.run_program(prog, reset=False, options=opts)
         finally:
             D.options.MAX_TASK_STACK_SIZE = engine._OPTION_DEFAULTS["MAX_TASK_STACK_SIZE"]
+        # the client owning the harness batch kinds discards what an abandoned computation left pending
+        # (leftover *batches* are not the scheduler's concern; a stale batch would be flushed while the canary waits)
+        for b in list(env.batches):      # cancel() switches the active batch, which creates a new (empty) one
+            if not b.is_flushed():
+                b.cancel()
         fk = failure_kind(prog, env, limit)
         if fk:
             kinds.add(fk)
